@@ -10,3 +10,40 @@ for t, nloops in [('boolean', 2), ('int32', 0), ('int64', 0), ('int96', 1), ('fl
 JOBS.append(dict(name='c08_plain_fixed', props=['C08', 'C12'], entry='h_plain_fixed', harness='harness/C08/plain.c',
                  includes=['.'], loop_contracts=False, backend=['z3', 'sat'], timeout=240,
                  functions=['carquet_decode_plain_fixed_byte_array'], wip=True))
+# CQV_HUGE variant: count up to INT64_MAX (the output object is then an arbitrary object, the decoder must reject
+# because count*width > input_size).  Exhibits the unchecked (size_t)count*width overflow: FINDING, jobs stay wip.
+HUGE_NOTE = ('FINDING: (size_t)count*width wraps for count >= 2^64/width: decoder returns success for a count whose '
+             'encoded size exceeds input_size (and copies/loops out of bounds); not reachable from the file reader (num_values is int32)')
+for t, nloops in [('int32', 0), ('int64', 0), ('int96', 1), ('float', 0), ('double', 0)]:
+    JOBS.append(dict(name='c08_plain_%s_hugecount' % t, props=['C08'], entry='h_plain_' + t, enforce='carquet_decode_plain_' + t,
+                     defines=['CQV_HUGE=1'], min_loop_obligations=nloops, timeout=240, wip=True, note=HUGE_NOTE, **P08))
+JOBS.append(dict(name='c08_plain_fixed_hugecount', props=['C08'], entry='h_plain_fixed', harness='harness/C08/plain.c',
+                 includes=['.'], loop_contracts=False, backend=['z3', 'sat'], timeout=240, defines=['CQV_HUGE=1'],
+                 functions=['carquet_decode_plain_fixed_byte_array'], wip=True, note=HUGE_NOTE))
+JOBS += [
+    dict(name='c08_plain_dispatch', props=['C08'], entry='h_plain_dispatch', loop_contracts=False,
+         replace=['carquet_decode_plain_boolean', 'carquet_decode_plain_int96', 'carquet_decode_plain_byte_array'],
+         functions=['carquet_decode_plain', 'carquet_decode_plain_int32', 'carquet_decode_plain_int64',
+                    'carquet_decode_plain_float', 'carquet_decode_plain_double'], timeout=240, wip=True, **P08),
+    dict(name='c08_plain_dispatch_fixed', props=['C08'], entry='h_plain_dispatch_fixed', harness='harness/C08/plain.c',
+         includes=['.'], loop_contracts=False, backend=['z3', 'sat'], timeout=300, tier='thorough', est_s=150,
+         functions=['carquet_decode_plain', 'carquet_decode_plain_fixed_byte_array'], wip=True),
+]
+
+# ---- BYTE_STREAM_SPLIT ----
+B08 = dict(overlays=['contracts/bss.ovl'], harness='harness/C08/bss.c', includes=['.'],
+           extra_sources=['stubs/mem_stubs.c', 'stubs/plain_stubs.c'],
+           trusted=['stubs/plain_stubs.c: carquet_dispatch_byte_split_* (SIMD dispatcher entry points) as contracts: '
+                    'ranges [0,count*w) accessible, output is the byte transposition of the input'])
+BSS_WIDTHS = [1, 2, 3, 4, 5, 7, 8, 12, 16]
+JOBS += [
+    dict(name='c08_bss_decode_float', props=['C08', 'C11', 'C12'], entry='h_bss_decode_float',
+         enforce='carquet_byte_stream_split_decode_float', timeout=240, wip=True, **B08),
+    dict(name='c08_bss_decode_double', props=['C08', 'C11', 'C12'], entry='h_bss_decode_double',
+         enforce='carquet_byte_stream_split_decode_double', timeout=240, wip=True, **B08),
+]
+for w in BSS_WIDTHS:
+    JOBS.append(dict(name='c08_bss_decode_generic_w%d' % w, props=['C08', 'C11', 'C12'], entry='h_bss_decode_generic',
+                     enforce='carquet_byte_stream_split_decode', defines=['CQV_W=%d' % w], min_loop_obligations=2,
+                     level='bounded', bound='type_length == %d (all counts, all data)' % w, timeout=300,
+                     tier='quick' if w in (1, 4, 12) else 'thorough', wip=True, **B08))
